@@ -23,7 +23,7 @@ var modelDocs = map[string]string{
 	"time.Time.After/Before/Equal": "integer comparison of wall-clock nanoseconds",
 	"time.Time.UnixNano":         "t wrapped to int64 (Go: undefined outside 1678..2262; the implementation wraps)",
 	"time.Unix":                  "time.Unix(s, ns) = s*1e9 + ns",
-	"time.Now":                   "an arbitrary time",
+	"time.Now":                   "an arbitrary time between 1970 and 2116",
 	"durationpb":                 "durationpb.New(d).AsDuration() == d for every int64 d; AsDuration(nil) == 0; AsDuration never leaves the int64 range",
 	"proto.Clone":                "deep copy into a fresh message: every field of the clone equals the original's; nothing else changes",
 	"fmt.Errorf/errors.New":      "return a fresh non-nil error; %w keeps the awserr classification of the wrapped error; message text is dropped",
@@ -69,8 +69,8 @@ func init() {
 	}
 	models["time.Now"] = func(x *Exec, s *State, in ssa.Instruction, a []Value, c *ssa.CallCommon) (Value, bool) {
 		t := x.fresh("now", sInt)
-		// the clock is between 1970 and 2262 (so UnixNano is exact)
-		s.assume(and(app("<=", "0", t), app("<", t, "9223372036854775807")))
+		// the clock is between 1970 and 2116 (|t| < 2^62 ns: the range all time contracts assume)
+		s.assume(and(app("<=", "0", t), app("<", t, "4611686018427387904")))
 		return tv(x, t), true
 	}
 	models["time.(Time).Format"] = func(x *Exec, s *State, in ssa.Instruction, a []Value, c *ssa.CallCommon) (Value, bool) {
